@@ -30,7 +30,7 @@ let () =
             try
               let p = program (parse line) in
               match r_output (parse oline) with
-              | None -> "panic"
+              | None -> "panic dom13:" ^ (if Model.in_domain_b p then "1" else "0")
               | Some o -> Monitors_glue.run_all p o
             with Bad m -> "unreadable " ^ m
           in
